@@ -88,27 +88,29 @@ def configurations(thorough):
     dimension; the graphs of those with tour=True are printed by TLC and replayed on gemseo, the others are only
     model-checked."""
     core = dict(PROC_BASE, en=False)
-    stats = dict(PROC_BASE, toggle=True, reset=True, setprocs=["d2", "c"])
+    stats = dict(PROC_BASE, toggle=True, reset=True, setprocs=["d2", "c"], callprocs=["d2", "c"] if thorough else ["c"])
     nocache = dict(PROC_BASE, cache=False, obs=["o1", "o2"], oneshot=["o2"], setvals=STATUSES + ["bad"], lin=False,
                    callprocs=["d2", "c"], setprocs=["d2", "c"], en=False)
-    two = dict(PROC_BASE, x=[0, 1], en=False, callprocs=["d2", "c"], setprocs=["d2", "c"])
+    two = dict(PROC_BASE, x=[0, 1], en=False)
+    two.update(dict(callprocs=["d2", "c"], setprocs=["c"]) if thorough else dict(callprocs=["c"], setprocs=["d2", "c"]))
     cfgs = [
         ("unit", "ExecStatus", dict(UNIT_BASE), True),
         # status / cache / Jacobian logic with every failure, statistics disabled from the start (getters None)
         ("proc-core", "ExecStatusProc", core, True),
-        # statistics: counters, durations, the class switch toggled, counters reset (quick: through the chain only)
-        ("proc-stats", "ExecStatusProc", stats if thorough else dict(stats, callprocs=["c"]), True),
+        # statistics: counters, durations, the class switch toggled, counters reset
+        ("proc-stats", "ExecStatusProc", stats, True),
         # no cache, every status (and an alien one) set by hand, a second observer that detaches itself
         ("proc-nocache", "ExecStatusProc", nocache, True),
-        # two inputs (SimpleCache replacement, a discipline holding another input than the chain's entry), the
-        # status of the chain and of its last discipline reset as DisciplineAdapter does
-        ("proc-two-inputs", "ExecStatusProc", two if thorough else dict(two, callprocs=["c"]), True),
+        # two inputs (SimpleCache replacement, a discipline holding another input than the chain's entry), statuses
+        # set back to DONE by hand as DisciplineAdapter does
+        ("proc-two-inputs", "ExecStatusProc", two, True),
     ]
     if thorough:
         cfgs += [
             ("unit-2", "ExecStatus", dict(UNIT_BASE, countervals=[0, 2], maxcnt=2, maxdur=4), True),
             ("proc-stats-nofail", "ExecStatusProc", dict(PROC_BASE, toggle=True, reset=True, failures=False,
                                                          setprocs=["c"]), True),
+            # every process driven with two inputs: model-checked only (543 466 transitions)
             ("proc-two-inputs-all", "ExecStatusProc", dict(PROC_BASE, x=[0, 1], en=False), False),
         ]
     return cfgs
@@ -551,8 +553,8 @@ def pickle_probe(ck):
 
 
 def sticky_failure_demo():
-    """What FailedIsSticky / the refuted ChainResetSuffices mean for a user (recorded in the evidence, not an
-    observation: gemseo agrees with the specification of the code here).  A DOE tolerates failing samples and
+    """What FailedIsSticky / the refuted ChainResetSuffices mean for a user (finding D0307 of C03, seen here from the
+    automaton; recorded in the evidence, not an observation: gemseo agrees with the specification of the code).  A DOE tolerates failing samples and
     DisciplineAdapter sets the status of the evaluated discipline back to DONE before each evaluation, but the status of
     the discipline that failed INSIDE the chain stays FAILED: every later sample fails with 'cannot be set to status
     RUNNING while in status FAILED'."""
